@@ -24,7 +24,7 @@ BMOLS = {
     'heavy4': (['C1', 'N2', 'O3', 'C4'], en.chain(4)),
 }
 CYCLIC = {'triangle': (3, [(0, 1), (0, 2), (1, 2)]), 'square': (4, [(0, 1), (0, 3), (1, 2), (2, 3)])}
-RESTR = {'none': None, 'r00': [(0, 0)], 'cross': [(0, 1), (1, 0)], 'dup': [(0, 0), (0, 0)]}
+RESTR = {'none': None, 'r00': [(0, 0)], 'cross': [(0, 1), (1, 0)], 'dup': [(0, 0), (0, 0)], 'r01': [(0, 1)]}
 
 
 QUICK_TREES4 = ([(0, 1), (1, 2), (2, 3)], [(0, 1), (0, 2), (2, 3)], [(0, 1), (0, 2), (0, 3)],
@@ -121,9 +121,9 @@ class C06(Check):
             kinds = [0, 1] + ([2] if n_mobile >= 2 else [])
             subsets = [None] + [list(s) for r in range(1, len(kinds) + 1) for s in itertools.combinations(kinds, r)]
             for types in subsets:
-                rkeys = ['none', 'r00', 'cross', 'dup'] if types is None else ['none', 'r00']
+                rkeys = ['none', 'r00', 'cross', 'dup', 'r01'] if types is None else ['none', 'r00']
                 for rk in rkeys:
-                    if rk == 'cross' and min(ns, ne) < 2:
+                    if rk in ('cross', 'r01') and min(ns, ne) < 2:
                         continue
                     for ign in (True, False):
                         for sf in self.bounds['steps_factor']:
@@ -200,7 +200,8 @@ class C06(Check):
         eff_types = types
         if types is None:
             eff_types = (0,) if (len(start_in) == 1 or len(end_in) == 1) else (0, 1, 2)
-        restr = RESTR[case['restr']]
+        # ONE list object per case, handed to every execution of the case (a caller re-using its restraint list)
+        restr = None if RESTR[case['restr']] is None else [tuple(p) for p in RESTR[case['restr']]]
         snap_s, snap_e = snapshot(start_in), snapshot(end_in)
         mob0 = (end_in if start_is_larger else start_in).atoms_positions
         bond0 = {e: float(np.linalg.norm(mob0[e[0]] - mob0[e[1]])) for e in map(tuple, mob_edges)}
